@@ -217,6 +217,13 @@ func ruleVerifyParamsSites(r *Run, rule string) {
 					n++
 					t := ff.Term(a)
 					root := name
+					// a site inside a single-use helper belongs to the helper's caller
+					if owner, _ := r.P.attribute(fn, b); owner != fn {
+						if subst, _, ok := r.helperChain(owner, fn); ok {
+							t = subst(t)
+							root = FnName(owner)
+						}
+					}
 					if k := strings.Index(root, "$"); k > 0 {
 						root = root[:k]
 					}
